@@ -431,6 +431,30 @@ example : CleanAddr [34, 101, 92, 34, 62, 120, 34, 64, 121] := by               
 example : b64enc [104, 101, 108, 108, 111] = [97, 71, 86, 115, 98, 71, 56, 61] := by decide
 
 
+/-! ## the reply code across the HTTP transport -/
+
+/-- **The HTTP edge's reply code reaches the relay**: whatever the reply text and command are (quotes, backslashes, semicolons,
+    any characters), the code the relay reads from the `X-Smtp-Reply` header is the code the edge wrote. -/
+theorem http_reply_code_preserved (d1 d2 d3 : Nat) (hd : isDigitN d1 = true ∧ isDigitN d2 = true ∧ isDigitN d3 = true)
+    (msg : List Nat) (cmd : Option (List Nat)) :
+    parseXReplyCode (buildXReply [d1, d2, d3] msg cmd) = some [d1, d2, d3] := by
+  obtain ⟨h1, h2, h3⟩ := hd
+  have hw : isWsN d1 = false := by
+    simp only [isDigitN, Bool.and_eq_true, decide_eq_true_eq] at h1
+    simp only [isWsN, Bool.or_eq_false_iff, beq_eq_false_iff_ne, ne_eq]
+    omega
+  have hstrip : ∀ rest : List Nat, lstripN (d1 :: rest) = d1 :: rest := by
+    intro rest; simp [lstripN, List.dropWhile, hw]
+  have hsemi : ∀ rest : List Nat, lstripN (59 :: rest) = 59 :: rest := by
+    intro rest; simp [lstripN, List.dropWhile, isWsN]
+  have hb : buildXReply [d1, d2, d3] msg cmd = d1 :: d2 :: d3 :: 59 :: (32 :: (formatParam [109, 101, 115, 115, 97, 103, 101] msg ++
+      (match cmd with
+       | some c => [59, 32] ++ formatParam [99, 111, 109, 109, 97, 110, 100] c
+       | none => []))) := by
+    cases cmd <;> simp [buildXReply]
+  rw [hb]
+  simp only [parseXReplyCode, hstrip, h1, h2, h3, Bool.and_self, if_true, hsemi]
+
 /-! ## the whole SMTP hop: client bytes into the server's command loop -/
 section Hop
 open Slimta.Server
